@@ -32,13 +32,16 @@ RunOf(o) ==
                                       serr |-> o.pairs[x].serr]],
    herr |-> o.herr, hcond |-> o.hcond, ain |-> o.ain, aoff |-> o.aoff, xs |-> o.xs]
 \* C05_State: the same expression built in the same registry state is the same unit and hashes equally - phase ph against
-\* every earlier phase of the same history whose table is the same (an edit was undone).  hc = class of the hash value.
+\* every earlier phase of the same history in the same registry state (UnitAlgMR!SameState: only read-only queries in
+\* between, or edits that were undone).  hc = class of the hash value.  Register 26 is the OBJECT leaf 1 was in phase 0:
+\* a unit that already exists (a dict key, say) is hashed again in every phase.
 StateFails(idx, o) ==
   {[clause |-> "State", at |-> r] : r \in {x \in DOMAIN o.regs :
       \E d \in 1..o.ph :
         LET q == Obs[idx - d] a == q.regs[x] b == o.regs[x] IN
-        /\ TableAt(o.edits, o.ph) = TableAt(o.edits, o.ph - d)
+        /\ SameState(o.edits, o.ph, d)
         /\ IsUnit(a) /\ IsUnit(b)
+        /\ a.reg = b.reg /\ a.reg = o.regs[1].reg   \* (units of the history's registry)
         /\ ~(/\ a.lg = b.lg /\ a.neg = b.neg /\ a.dim = b.dim /\ a.off = b.off
              /\ (SameExpr(a, b) => q.hc[x] = o.hc[x]))}}
 ShapeOk(o) == Len(o.regs) = NLeaf + Len(Prog(o.law, o.p, o.q)) /\ Len(o.pairs) = Len(Pairs(o.law)) /\ Len(o.herr) = Len(Prog(o.law, o.p, o.q)) /\ Len(o.hcond) = Len(o.herr)
@@ -106,6 +109,14 @@ TFails(W) ==
 \* the rows the harness read back from the edited registry are the rows of the history's table (the registry's own job: C12)
 TTable(o) == o.hist => (o.alg = HistAlg(o) /\ o.adim = HistAdim(o))
 
+\* (T) the table's dict gains a row exactly when a query resolves a prefixed name for the first time in the history
+\* (_lookup_unit_symbol writes the derived row back); every other query, and every edit of an existing symbol, leaves
+\* the number of rows alone.  Implementation detail: drift, never a verdict.
+TLut(o) ==
+  (o.hist /\ o.ph > 0) =>
+    LET e == o.edits[o.ph] IN
+    o.dlut = IF Resolves(e) /\ ~\E x \in 1..(o.ph - 1) : Resolves(o.edits[x]) /\ o.edits[x].sym = e.sym THEN 1 ELSE 0
+
 Init == i \in 1..Stripes
 Next ==
   /\ i <= Len(Obs)
@@ -118,5 +129,6 @@ Next ==
           /\ \A f \in TFails(W) : PrintT(ToJson([tag |-> "T-FAIL", idx |-> i, what |-> f.what, at |-> f.at]))
           /\ (o.hist => \A f \in StateFails(i, o) : PrintT(ToJson([tag |-> "P-FAIL", idx |-> i, clause |-> f.clause, at |-> f.at])))
           /\ (~TTable(o) => PrintT(ToJson([tag |-> "T-FAIL", idx |-> i, what |-> "table", at |-> 0])))
+          /\ (~TLut(o) => PrintT(ToJson([tag |-> "T-FAIL", idx |-> i, what |-> "lut", at |-> 0])))
   /\ i' = i + Stripes
 =============================================================================
